@@ -29,7 +29,7 @@ RULE = ('prepared requests and responses over body sources {bytes, bytearray, te
 	'x pre-populated framing fields (stale Content-Length, Transfer-Encoding) x HTTP/1.0 and 1.1 x operation orders (prepare/compose repeated and interleaved); each output read by an independent RFC 7230 reader; non-trivial = well-framed output with a body; distinct by (framing, status/method, source, length class)')
 
 METHODS = ['GET', 'HEAD', 'POST', 'PUT', 'DELETE', 'OPTIONS', 'TRACE', 'PATCH']
-STATUSES = [100, 101, 200, 200, 200, 201, 202, 204, 205, 301, 304, 400, 404, 405, 413, 500, 503]
+STATUSES = [100, 101, 102, 103, 150, 199, 200, 200, 200, 201, 202, 204, 205, 301, 304, 400, 404, 405, 413, 500, 503]
 SOURCES = ['bytes', 'bytearray', 'text', 'list', 'tuple', 'gen', 'textlist', 'textgen', 'bytesio', 'file', 'none']
 LENGTHS = [0, 1, 5, 300, 4095, 4096, 4097, 10000]
 OPS = [('prepare', 'compose'), ('prepare', 'compose', 'compose'), ('prepare', 'prepare', 'compose'), ('prepare', 'compose', 'prepare', 'compose'), ('prepare', 'compose', 'compose', 'prepare', 'compose')]
